@@ -451,7 +451,7 @@ class _Generator(Generator):
                 'else {'
             ] + [
                 '    dst_p->{}is_{}_addition_present = false;'.format(
-                    self.location_inner('', '.'), addition.name)
+                    self.location_inner('', '.'), canonical(addition.name))
                 for addition in type_.additions] + [
                 '}'
             ]
@@ -512,7 +512,7 @@ class _Generator(Generator):
             encode_lines += [
                 '',
                 'if (src_p->{}is_{}_addition_present) {{'.format(
-                    self.location_inner('', '.'), addition.name),
+                    self.location_inner('', '.'), canonical(addition.name)),
                 '    {} |= {}u;'.format(addition_mask, mask),
                 '}'
             ]
@@ -581,7 +581,7 @@ class _Generator(Generator):
             encode_lines += [
                 '',
                 'if (src_p->{}is_{}_addition_present) {{'
-                .format(self.location_inner('', '.'), addition.name)
+                .format(self.location_inner('', '.'), canonical(addition.name))
             ] + indent_lines(wrapped_encoder_lines + addition_encode_lines) + [
                 '}'
             ]
@@ -591,7 +591,7 @@ class _Generator(Generator):
                 '(({addition_bits} > {current_bit}u) && '
                 '(({addition_mask}[{index}] & {mask}u) == {mask}u));'.format(
                     location=self.location_inner('', '.'),
-                    name=addition.name,
+                    name=canonical(addition.name),
                     addition_bits=unique_addition_bits,
                     current_bit=i,
                     addition_mask=unique_addition_mask,
@@ -600,7 +600,7 @@ class _Generator(Generator):
                 '',
                 'if (dst_p->{location}is_{name}_addition_present) {{'.format(
                     location=self.location_inner('', '.'),
-                    name=addition.name),
+                    name=canonical(addition.name)),
                 '    (void)decoder_read_length_determinant(decoder_p);'
             ] + indent_lines(addition_decode_lines) + [
                 '}',
@@ -725,7 +725,7 @@ class _Generator(Generator):
         return encode_lines, decode_lines
 
     def get_encoded_octet_string_lengths(self, type_, checker):
-        with self.members_backtrace_push(type_.name):
+        with self.members_backtrace_push(canonical(type_.name)):
             if checker.minimum == checker.maximum:
 
                 return [checker.maximum]
@@ -835,7 +835,7 @@ class _Generator(Generator):
         function_name = 'get_choice_{}_length'.format(camel_to_snake_case(type_.name))
 
         if function_name not in self.additional_helpers:
-            with self.members_backtrace_push(type_.name):
+            with self.members_backtrace_push(canonical(type_.name)):
                 choice = '{}choice'.format(self.location_inner('', '.'))
                 choice_length_lines = []
 
@@ -933,7 +933,7 @@ class _Generator(Generator):
         return encode_lines, decode_lines
 
     def get_encoded_enumerated_length(self, type_):
-        with self.members_backtrace_push(type_.name):
+        with self.members_backtrace_push(canonical(type_.name)):
             return ['(uint32_t)enumerated_value_length((int32_t)src_p->{})'.format(
                 self.location_inner()), 1]
 
@@ -1038,7 +1038,7 @@ class _Generator(Generator):
                                                       checker.element_type)
         inner_length = encoded_lengths_as_string(inner_lengths)
 
-        with self.c_members_backtrace_push(type_.name):
+        with self.c_members_backtrace_push(canonical(type_.name)):
 
             return [1,
                     '(uint32_t)minimum_uint_length(src_p->{loc}length)'.format(
